@@ -11,7 +11,9 @@
  *   R <state> <execStart> <execEnd> <now>                                   check result
  *   A <via h|a|e|x|c> <sticky> <notify> <persistent> <expiry> <now>         acknowledge
  *        h = HTTP request, a = API action invoked directly (expiry 0: parameter absent), e = ACKNOWLEDGE_*_PROBLEM,
- *        x = ACKNOWLEDGE_*_PROBLEM_EXPIRE, c = cluster event::SetAcknowledgement
+ *        x = ACKNOWLEDGE_*_PROBLEM_EXPIRE, c = cluster event::SetAcknowledgement;
+ *        f / y = the same two external commands with <sticky> <notify> <persistent> being the command's literal integer
+ *        arguments (documented encoding: sticky iff 2, notify / persistent iff > 0)
  *   X <via h|a|e|c> <now>                                                   remove acknowledgement
  *   T <now> [<reader 0|1|2>]                                                time passes, then the object is looked at;
  *        <reader>: which getter looks first — 0 GetHandled, 1 GetSeverity, 2 GetAcknowledgement (default 0)
@@ -23,6 +25,10 @@
  *        with the reminder of the case's Notification object due (interval 1 s, next_notification reset before the call;
  *        no users, period or filters, so that whether Notification::BeginExecuteNotification(Problem, reminder) is
  *        reached — observed through OnNotificationSentToAllUsers — depends on the handler's guards only)
+ *   F <now>                                                                 Checkable::FireSuppressedNotifications() — what the
+ *        checkable's 5 s timer (FireSuppressedNotificationsTimer, parked in this harness) calls for every host and service —
+ *        at a moment at which no check is imminent (active checks switched off for the call) and the service's host has not
+ *        recovered recently (its last_state_change is 0): when the handler runs and those two delays are C02's subject
  * every line is followed by
  *   | <acc> <ack> <expiry> <handled> <problem> <state> <stype> <attempt> <nSet> <nCleared> <nAckNotif> <nProblemNotif> <comments>
  *     <raw> <sevAck> <suppProblem> <suppRecovery> <nRecoveryNotif> <nReminders>
@@ -141,8 +147,12 @@ static Case MakeCase(bool isHost, int mx, bool vol)
 		c.svc->Register();
 	}
 	c.host->OnAllConfigLoaded();
-	if (c.svc)
+	if (c.svc) {
 		c.svc->OnAllConfigLoaded();
+		/* the (never checked) host of a service case has not "recovered recently": last_state_change defaults to the
+		 * application's start time, which lies after every time of the virtual clock */
+		c.host->SetLastStateChange(0);
+	}
 	c.obj = isHost ? Checkable::Ptr(c.host) : Checkable::Ptr(c.svc);
 	l_Obj = c.obj.get();
 	{
@@ -308,13 +318,17 @@ static void DoAck(const Case& c, char via, int sticky, int notify, int persisten
 			Dictionary::Ptr r = ApiAction::GetByName("acknowledge-problem")->Invoke(c.obj, params);
 			acc = ((int)(double)r->Get("code") / 100 == 2) ? 1 : 0; /* any 2xx = accepted, as ActionsHandler classes it */
 		}
-	} else if (via == 'e' || via == 'x') {
+	} else if (via == 'e' || via == 'x' || via == 'f' || via == 'y') {
+		bool expire = via == 'x' || via == 'y';
 		std::ostringstream line;
-		line << "[" << (l_Base + now) << "] ACKNOWLEDGE_" << (c.isHost ? "HOST" : "SVC") << "_PROBLEM" << (via == 'x' ? "_EXPIRE" : "") << ";h;";
+		line << "[" << (l_Base + now) << "] ACKNOWLEDGE_" << (c.isHost ? "HOST" : "SVC") << "_PROBLEM" << (expire ? "_EXPIRE" : "") << ";h;";
 		if (!c.isHost)
 			line << "s;";
-		line << (sticky ? 2 : 1) << ";" << notify << ";" << persistent << ";";
-		if (via == 'x')
+		if (via == 'f' || via == 'y')
+			line << sticky << ";" << notify << ";" << persistent << ";"; /* the command's own integer arguments, as given */
+		else
+			line << (sticky ? 2 : 1) << ";" << notify << ";" << persistent << ";";
+		if (expire)
 			line << absExpiry << ";";
 		line << "verif;ack";
 		try {
@@ -392,6 +406,18 @@ static void DoRemind(const Case& c, long long now)
 		l_Reminders = 1;
 	if (l_Reminders > 1)
 		l_Reminders = 1;
+	Observe(c, 1);
+}
+
+static void DoFire(const Case& c, long long now)
+{
+	Clock(now);
+	ResetCounters();
+	printf("F %lld", now);
+	bool active = c.obj->GetEnableActiveChecks();
+	c.obj->SetEnableActiveChecks(false); /* IsLikelyToBeCheckedSoon(): no */
+	c.obj->FireSuppressedNotifications();
+	c.obj->SetEnableActiveChecks(active);
 	Observe(c, 1);
 }
 
@@ -499,6 +525,52 @@ static void Enumerate(int len, int job, int jobs)
 	}
 }
 
+/* --- second exhaustive part, around the suppressed-notification handler: after a first CRITICAL/DOWN result, all sequences
+ * of `len` symbols of a 9-symbol alphabet that contain at least one run of the handler (the others are the first part's). --- */
+static const int kSymbols2 = 9;
+
+static void DoSymbol2(Case& c, int sym, long long t)
+{
+	switch (sym) {
+	case 0: DoResult(c, 0, t, t, t); break;
+	case 1: DoResult(c, 2, t, t, t); break;
+	case 2: DoResult(c, 1, t, t, t); break;
+	case 3: DoAck(c, 'a', 1, 0, 1, t + 15, t); break;   /* sticky, runs out before the next step's handler run */
+	case 4: DoAck(c, 'c', 1, 1, 0, 0, t); break;        /* sticky, no expiry */
+	case 5: DoRemove(c, 'h', t); break;
+	case 6: DoDowntime(c, c.downtime ? 0 : 1, t); break;
+	case 7: DoPause(c, c.paused ? 0 : 1, t); break;
+	case 8: DoFire(c, t + 8); break;
+	}
+}
+
+static void Enumerate2(int len, int job, int jobs)
+{
+	long total = 1;
+	for (int i = 0; i < len; i++) total *= kSymbols2;
+	long all = total * 4;
+	long lo = all * job / jobs, hi = all * (job + 1) / jobs;
+	for (long idx = lo; idx < hi; idx++) {
+		long code = idx % total;
+		int cfg = (int)(idx / total);
+		bool hasFire = false;
+		for (long k = code, i = 0; i < len; i++, k /= kSymbols2)
+			if (k % kSymbols2 == 8) hasFire = true;
+		if (!hasFire)
+			continue;
+		Case c = Header((cfg & 2) != 0, 1 + (cfg & 1), false);
+		long long t = 1000;
+		DoResult(c, 2, t, t, t);
+		long k = code;
+		for (int i = 0; i < len; i++) {
+			t += 10;
+			DoSymbol2(c, (int)(k % kSymbols2), t);
+			k /= kSymbols2;
+		}
+		Finish(c);
+	}
+}
+
 static void Random(Rng& rng, int n, int maxLen)
 {
 	for (int i = 0; i < n; i++) {
@@ -512,8 +584,11 @@ static void Random(Rng& rng, int n, int maxLen)
 		int pAck = 1 + (int)rng.below(5);
 		for (int j = 0; j < len; j++) {
 			t += (long long)rng.below(12);
-			int k = (int)rng.below(14);
-			if (k == 13) {
+			int k = (int)rng.below(15);
+			if (k == 14) {
+				t += (long long)rng.below(20);
+				DoFire(c, t);
+			} else if (k == 13) {
 				t += (long long)rng.below(20);
 				DoRemind(c, t);
 			} else if (k == 12) {
@@ -538,16 +613,20 @@ static void Random(Rng& rng, int n, int maxLen)
 				DoResult(c, st, es, ee, t);
 				if (es >= lastExec) lastExec = es;
 			} else if (k < 4 + pAck && k < 8) {
-				const char vias[] = { 'h', 'a', 'e', 'x', 'x', 'c', 'c' };
+				const char vias[] = { 'h', 'a', 'e', 'x', 'x', 'c', 'c', 'f', 'y' };
 				char via = vias[rng.below(sizeof vias)];
+				bool rawArgs = via == 'f' || via == 'y';
 				long long expiry = 0;
 				int m = (int)rng.below(8);
-				if (via != 'e') {
+				if (via != 'e' && via != 'f') {
 					if (m < 4) expiry = t + 1 + (long long)rng.below(rng.coin() ? 40 : 8);
 					else if (m == 4) expiry = t;                       /* not in the future */
 					else if (m == 5) expiry = t - 1 - (long long)rng.below(10);
 				}
-				DoAck(c, via, rng.coin(), rng.coin(), rng.below(3) == 0, expiry, t);
+				if (rawArgs)
+					DoAck(c, via, (int)rng.below(4), (int)rng.below(3), (int)rng.below(3), expiry, t);
+				else
+					DoAck(c, via, rng.coin(), rng.coin(), rng.below(3) == 0, expiry, t);
 			} else if (k == 8) {
 				const char vias[] = { 'h', 'a', 'e', 'c' };
 				DoRemove(c, vias[rng.below(4)], t);
@@ -683,6 +762,10 @@ static void RunOps(const char *path)
 			long long now;
 			if (sscanf(line, "N %lld", &now) != 1 || !c.obj) { fprintf(stderr, "bad N line\n"); _exit(2); }
 			DoRemind(c, now);
+		} else if (line[0] == 'F') {
+			long long now;
+			if (sscanf(line, "F %lld", &now) != 1 || !c.obj) { fprintf(stderr, "bad F line\n"); _exit(2); }
+			DoFire(c, now);
 		} else if (line[0] == 'U') {
 			int on; long long now;
 			if (sscanf(line, "U %d %lld", &on, &now) != 2 || !c.obj) { fprintf(stderr, "bad U line\n"); _exit(2); }
@@ -767,6 +850,7 @@ int main(int argc, char **argv)
 		InitIcinga();
 		Setup(argc, argv);
 		Enumerate(len, j, jobs);
+		Enumerate2(len, j, jobs);
 		Rng rng(seed * 1000003ULL + (uint64_t)j);
 		Random(rng, nRandom / jobs + (j < nRandom % jobs ? 1 : 0), thorough ? 120 : 40);
 		Teardown();
